@@ -325,3 +325,48 @@ func H08d_inprocess_retained_publish() {
 	}
 	vrtReach("C08.inprocess_retained_publish")
 }
+
+// H08e_multi_filter: one SUBSCRIBE with several filters, each matching retained
+// messages (the earlier filters more, fewer or as many as the later ones):
+// every filter's retained messages are delivered.
+func H08e_multi_filter() {
+	b := vrtBroker("mockSuccess")
+	pub, _ := b.connect(vrtConnectPkt([]byte("p"), true))
+	for i, t := range []string{"d1/a", "d1/b", "d2/c", "d3/e", "d3/f", "d3/g"} {
+		vrtExchange(pub, &specPkt{Typ: specPUBLISH, Flags: 1, Topic: []byte(t), Payload: []byte{byte('0' + i)}})
+	}
+	lists := [][]string{{"d1/+", "d2/c"}, {"d2/c", "d1/+"}, {"d1/+", "d3/+"}, {"d3/+", "d2/c", "d1/a"}, {"d2/c", "d2/c"}}
+	L := lists[vrtChoice("filters", len(lists))]
+	counts := map[string]int{"d1/+": 2, "d2/c": 1, "d3/+": 3, "d1/a": 1}
+	sub := &specPkt{Typ: specSUBSCRIBE, ID: 1}
+	want := 0
+	seen := map[string]bool{}
+	for _, f := range L {
+		sub.Topics = append(sub.Topics, []byte(f))
+		sub.QoS = append(sub.QoS, 0)
+		if !seen[f] {
+			want += counts[f]
+		}
+		seen[f] = true
+	}
+	s, _ := b.connect(vrtConnectPkt([]byte("s"), true))
+	ans, ok := vrtParse(vrtExchange(s, sub))
+	vrtAssert("C08.stream_wellformed", ok && len(ans) >= 1)
+	if !ok || len(ans) < 1 {
+		return
+	}
+	vrtAssert("C08.suback_first", ans[0].Typ == specSUBACK && len(ans[0].Codes) == len(L))
+	// (a repeated filter may deliver its retained messages again: at least once each, nothing foreign)
+	got := map[string]int{}
+	for _, p := range ans[1:] {
+		vrtAssert("C08.retained_delivered_once", p.Typ == specPUBLISH && p.Flags&1 == 1)
+		got[string(p.Topic)]++
+	}
+	distinct := 0
+	for range got {
+		distinct++
+	}
+	vrtAssert("C08.every_filter_gets_its_retained_messages", distinct == want)
+	vrtAssert("C08.connection_stays_open", !s.isClosed())
+	vrtReach("C08.multi_filter")
+}
